@@ -376,6 +376,13 @@ Proof.
     unfold tree_tile. rewrite Ediv. repeat split; try assumption; try apply D; lia.
 Qed.
 
+Lemma lookup_prefix_eq : lookup_prefix = [47; 108; 111; 111; 107; 117; 112; 47].
+Proof. vm_compute. reflexivity. Qed.
+Lemma latest_path_eq : latest_path = [47; 108; 97; 116; 101; 115; 116].
+Proof. vm_compute. reflexivity. Qed.
+Lemma tile_prefix_path_eq : tile_prefix_path = [47; 116; 105; 108; 101; 47].
+Proof. vm_compute. reflexivity. Qed.
+
 Lemma tile_path_head t : exists r, tile_path t = 116 :: 105 :: 108 :: 101 :: 47 :: r.
 Proof. unfold tile_path. eexists. reflexivity. Qed.
 
@@ -385,7 +392,9 @@ Lemma serve_tile_path {St : Type} (ops : server_ops St) st t :
                   parse_tile_path (skipn 1 (47 :: tile_path t)) = TOk t.
 Proof.
   intros Hv. split; [|cbn [skipn]; apply parse_tile_path_of_path; exact Hv].
-  destruct (tile_path_head t) as [r ->]. reflexivity.
+  destruct (tile_path_head t) as [r ->]. unfold serve.
+  rewrite lookup_prefix_eq, latest_path_eq, tile_prefix_path_eq.
+  cbn [has_prefix str_eqb Z.eqb Pos.eqb andb]. destruct r; reflexivity.
 Qed.
 
 Theorem serve_tile_servable st h t :
@@ -412,7 +421,7 @@ Theorem serve_tile_honest st h t :
   SInv st -> zlen (ts_records st) < 2 ^ 62 -> 1 <= h <= 30 -> tree_tile h (zlen (ts_records st)) t ->
   serve_test st (47 :: tile_path t) = (HOk COctet (honest_tile (range_hash (ts_records st)) t), st) /\
   read_tile_data t (reader_of (store_of (ts_records st))) = TOk (honest_tile (range_hash (ts_records st)) t).
-Proof. intros HI Hlen Hh Ht. apply serve_tile_servable; auto. apply tree_tile_servable. exact Ht. Qed.
+Proof. intros HI Hlen Hh Ht. apply (serve_tile_servable st h t); auto. apply tree_tile_servable. exact Ht. Qed.
 
 (* data tiles *)
 Theorem serve_data_tile_honest st h n w :
